@@ -44,6 +44,65 @@ INVARIANTS = ['x <= 5', 'x <= 5 && y <= 3', "x' == 0", "x <= 5 && x' == 0", "x' 
               "true || forall (k : int[0,1]) c[k]' == 0", "i == 1 || x' == 0"]
 
 
+OLD_PARAM_FACTS = {
+    # nonterminal -> per alternative: (symbols of the right-hand side without mid-rule markers, callbacks with the arguments that matter); ParamModel.cbs_group
+    'OldProcParam': [(['Type', 'NonTypeId', 'ArrayDecl'], [('type_duplicate', ''), ('decl_parameter', 'true')]),
+                     (['OldProcParam', "','", 'NonTypeId', 'ArrayDecl'], [('type_duplicate', ''), ('decl_parameter', 'true')])],
+    'OldProcConstParam': [(['T_OLDCONST', 'NonTypeId', 'ArrayDecl'], [('type_int', 'ParserBuilder::PREFIX_CONST'), ('decl_parameter', 'false')]),
+                          (['OldProcConstParam', "','", 'NonTypeId', 'ArrayDecl'], [('type_int', 'ParserBuilder::PREFIX_CONST'), ('decl_parameter', 'false')])],
+    'OldProcParamList': [(['OldProcParam'], [('type_pop', '')]), (['OldProcConstParam'], []), (['OldProcParamList', "';'", 'OldProcParam'], [('type_pop', '')]), (['OldProcParamList', "';'", 'OldProcConstParam'], [])],
+}
+
+
+def old_parameter_facts(run):
+    """the four productions ParamModel.cbs_group transcribes, read from the grammar of this run: symbols, callbacks in order (mid-rule actions first) and the
+    reference flag each decl_parameter passes"""
+    import gen_grammar
+    try:
+        G = gen_grammar.load()
+    except gen_grammar.GrammarError as e:
+        run.tie_broken('G-LR translation of parser.y', str(e))
+        return 0
+    mid = {r['lhs']: r for r in G['rules'] if re.match(r'^[$@]+\d+$', r['lhs'])}
+    found = {}
+    for r in G['rules']:
+        if r['lhs'] in OLD_PARAM_FACTS:
+            calls = []
+            for x in r['rhs']:
+                if x in mid:
+                    calls += mid[x].get('calls') or []
+            calls += r.get('calls') or []
+            norm = []
+            for name, args in calls:
+                a = [q.strip() for q in args.split(',')] if args.strip() else []
+                norm.append((name, a[-1] if name in ('decl_parameter', 'type_int') and a else ''))
+            found.setdefault(r['lhs'], []).append(([x for x in r['rhs'] if x not in mid], norm))
+    bad = [dict(nonterminal=k, expected=v, found=found.get(k)) for k, v in OLD_PARAM_FACTS.items() if found.get(k) != v]
+    if bad:
+        run.tie_broken('parser.y no longer issues the callbacks ParamModel.v transcribes for 3.x parameter lists', bad[:3])
+    return len(OLD_PARAM_FACTS)
+
+
+def old_parameter_model(run, models):
+    """the parameters ParamModel's callbacks build for the groups of each 3.x model: what the document must show"""
+    drv, err = vlib.build_extract('params', 'Extract_Params.v', 'drv_params') if os.path.exists(os.path.join(vlib.COQ, 'theories', 'ParamModel.vo')) else (None, 'ParamModel.vo missing')
+    if drv is None:
+        run.tie_broken('extraction of the 3.x parameter model', err)
+        return {}
+    Ts = [T for M in models if getattr(M, 'old', False) for T in M.templates if T.get('old_groups')]
+    names = {}
+    def num(n):
+        return names.setdefault(n, len(names) + 1)
+    lines = [' ; '.join('%s %s' % ('r' if kind == 'ref' else 'c', ' '.join(str(num(n)) for n in ns)) for kind, ns in T['old_groups']) for T in Ts]
+    out = subprocess.run([drv], input='\n'.join(lines) + '\n', stdout=subprocess.PIPE, universal_newlines=True).stdout.split('\n')
+    back = {v: k for k, v in names.items()}
+    res = {}
+    for T, line in zip(Ts, out):
+        built, _, rest = line.partition(' | ')
+        res[id(T)] = [(back[int(p.split(':')[0])], p.split(':')[1] == '1', p.split(':')[2] == '1') for p in built.split()] if 'underflow 0' in rest and 'depth 0' in rest else None
+    return res
+
+
 def invariant_shapes(run):
     """the stored invariant of a location against its label: the type checker rebuilds invariants that mention clock rates conjunct by conjunct
     (RateDecomposer); whatever it does, the conjuncts stored must be those of the label, in order, after the constant 1 it starts from"""
@@ -180,6 +239,8 @@ def check(run):
     for k in range(nold):
         M = docgen.old_params(docgen.oldify(docgen.gen(rng, ntempl=rng.choice([1, 2, 3, 4]), allow_anon=True, branchpoints=False, xta_common=True), rng), rng)
         models.append(M)
+    nfacts = old_parameter_facts(run)
+    oldp = old_parameter_model(run, models)
     out = subprocess.run([drv], input='\n'.join(model_sx(M) for M in models) + '\n', stdout=subprocess.PIPE, universal_newlines=True).stdout.split('\n')
     j = vlib.Job()
     xmls = [docgen.render_xml(M) for M in models]
@@ -190,6 +251,11 @@ def check(run):
     samples = []
     for k, (M, x) in enumerate(zip(models, xmls)):
         exp = docgen.expected(M)
+        for T, t in zip(M.templates, exp['templates']):
+            if T.get('old_groups'):
+                if oldp.get(id(T)) != t['pkinds']:
+                    run.tie_broken('ParamModel (extracted) vs the generator\'s reading of a 3.x parameter list', dict(groups=T['old_groups'], model=oldp.get(id(T)), generator=t['pkinds']))
+                t['pkinds'] = oldp.get(id(T)) or t['pkinds']
         if out[k].strip() != model_expected(M).strip():
             mmism.append(dict(model=model_sx(M)[:600], coq_model=out[k][:600], expected=model_expected(M)[:600]))
         c = rr['m%d' % k]
